@@ -425,6 +425,11 @@ func (b *Bar) serve(bs *bState) {
 
 func (b *Bar) render(tw int) {
 	fn := func(s *bState) {
+		if !s.aborted && !s.completed() && b.ctx.Err() != nil {
+			// cancelled from outside (parent context or Shutdown) and drawn
+			// before the bar's goroutine has noticed: this is the last frame
+			s.aborted = true
+		}
 		frame := new(renderFrame)
 		stat := s.newStatistics(tw)
 		r, err := s.draw(stat)
